@@ -759,6 +759,73 @@ def add_prefix_readers(pack):
                                 *[CH(pos(a.pre.st, reader_of(a)) + 1) != V.mk_str(ch) for ch in rd._read_macro_dispatch]))
     c.raises(rd.SyntaxError)
     c.ensures("", lambda a: z3.BoolVal(True))
+
+    def tag_raise(a):
+        p0 = pos(a.pre.st, reader_of(a))
+        is_eof = a.exc.pycls is not None and issubclass(a.exc.pycls, rd.UnexpectedEOFError)
+        own = a.exc.note is None if hasattr(a.exc, "note") else True
+        # the text ends right after the #: whatever is raised (by this function itself: nothing was called yet) says "more input needed"
+        return z3.Implies(CH(p0 + 1) == V.mk_str(""), z3.BoolVal(is_eof))
+
+    c.ensures_on_raise("a # at the very end of the text is a prefix whose form is still owed: UnexpectedEOFError, not a malformed form", tag_raise)
+    c.replay(lambda m, ctx, ob: STRLIT_REPLAY)
+    c.replay_without_model = True
+
+    # ---- #? and #?@ with nothing after them: the conditional's opening parenthesis is still owed
+    def rc_setup(eng, st):
+        psetup(eng, st)
+        eng.class_id(rd.ReaderConditional)
+
+        def preserving(e, s, a, k):
+            r = fld(s, e.lift(a[0], s), "_reader")
+            s.ghost["n_read"] = z3.Int(V.fresh_name("n_read"))
+            e.havoc_heap(s, ["_idx"])
+            for nm in ("dqv", "dqn"):
+                if nm in s.aux:
+                    s.aux[nm] = z3.Const(V.fresh_name(nm), s.aux[nm].sort())
+            s.assume(WF(e, s, r))
+            s2, s3 = s.copy(), s.copy()
+            rc = e.alloc(s, rd.ReaderConditional)
+            e.store_field(s, rc.t, "_is_splicing", e.lift(a[1], s), None)
+            yield s, rc
+            s2.ghost["inner_exc"] = "eof"
+            yield s2, Raise(Exc(rd.UnexpectedEOFError, ("Unexpected EOF in reader conditional",), note="the text ended inside the conditional"))
+            s3.ghost["inner_exc"] = "syntax"
+            yield s3, Raise(Exc(rd.SyntaxError, ("malformed element",), note="malformed element"))
+
+        eng.models[id(rd._read_reader_conditional_preserving)] = Model("_read_reader_conditional_preserving (a conditional, or a syntax error of the right kind)", preserving)
+
+        def select(e, s, a, k):
+            s2 = s.copy()
+            r_ = V.fresh_val("selected")
+            s.assume(e.external_ref_fact(s, r_))
+            yield s, SV(r_)
+            s2.ghost["inner_exc"] = "syntax"
+            yield s2, Raise(Exc(rd.SyntaxError, ("unresolvable tagged literal",), note="raised while selecting the branch"))
+
+        eng.models[id(rd._select_reader_conditional_branch)] = Model("_select_reader_conditional_branch (some form, or a syntax error)", select)
+        eng.field_types[("ReaderConditional", "_is_splicing")] = lambda v: V.is_bool(v)
+        eng.field_types[("ReaderContext", "_process_reader_cond")] = lambda v: V.is_bool(v)
+
+    c = pack.contract("basilisp.lang.reader:_read_reader_conditional")
+    c.param("ctx", OBJ(RC))
+    c.setup(rc_setup)
+    c.requires("the stream reader is well-formed and stands on the ? of #?", lambda a: z3.And(WF(a.eng, a.pre.st, reader_of(a)), CH(pos(a.pre.st, reader_of(a))) == V.mk_str("?")))
+    c.raises(rd.SyntaxError)
+
+    def rc_raise(a):
+        g = a.post.st.ghost
+        is_eof = a.exc.pycls is not None and issubclass(a.exc.pycls, rd.UnexpectedEOFError)
+        if g.get("inner_exc") == "eof":
+            return z3.BoolVal(is_eof)
+        if g.get("inner_exc") == "syntax":
+            return z3.BoolVal(True)
+        p0 = pos(a.pre.st, reader_of(a))
+        ended = z3.Or(CH(p0 + 1) == V.mk_str(""), z3.And(CH(p0 + 1) == V.mk_str("@"), CH(p0 + 2) == V.mk_str("")))
+        return z3.BoolVal(is_eof) == ended
+
+    c.ensures_on_raise("#? or #?@ with the text ending right after it still owes its parenthesised branches: UnexpectedEOFError; a wrong character there is a malformed form; "
+                       "errors from inside the conditional keep their kind", rc_raise)
     c.replay(lambda m, ctx, ob: STRLIT_REPLAY)
     c.replay_without_model = True
 
@@ -2100,7 +2167,7 @@ for text, want in (('"abc', "incomplete"), ('"ab\\', "incomplete"), ('"ab\\u12',
                    ("\\", "incomplete"), ("\\a", "ok"), ("\\newline", "ok"), ("#inst 5", "malformed"), ("#inst \"x\"", "malformed"), ("#inst \"2020-01-01T00:00:00Z\"", "ok"),
                    ("#{#py []}", "malformed"), ("#{#py {} 1}", "malformed"), ("#{1 #py #{2}}", "malformed"), ("#{#py (1)}", "ok"), ("#{1 2}", "ok"),
                    ("#uuid 1", "malformed"), ("#uuid nil", "malformed"), ("#uuid \"zz\"", "malformed"), ("#uuid \"6ba7b810-9dad-11d1-80b4-00c04fd430c8\"", "ok"), ("#uuid", "incomplete"),
-                   ("#true 1", "malformed"), ("#nil 1", "malformed"), ("#false", "malformed"), ("#nil", "malformed"), ("#a", "incomplete"), ("#a 1", "malformed"),
+                   ("#", "incomplete"), ("(a #", "incomplete"), ("#?", "incomplete"), ("#?@", "incomplete"), ("[#?@", "incomplete"), ("#?x", "malformed"), ("#?@x", "malformed"), ("#?(", "incomplete"), ("#true 1", "malformed"), ("#nil 1", "malformed"), ("#false", "malformed"), ("#nil", "malformed"), ("#a", "incomplete"), ("#a 1", "malformed"),
                    ("{:a 1 :a 2", "incomplete"), ("{:a 1 :a 2}", "malformed"), ("{:a 1 :b", "incomplete"), ("{:a}", "malformed"), ("{#py [] 1", "incomplete"), ("{#py [] 1}", "malformed"),
                    ("(def m {:a 1 :b [1 2] :a 2 :z", "incomplete"), ("#:ns{:a 1 :ns/a 2", "incomplete"), ("{:a 1 :b 2}", "ok"), ("{}", "ok"),
                    ('#"a{99999999999999999999}"', "malformed"), ('#"(a"', "malformed"), ('#"a+"', "ok"), ('#"a', "incomplete"),
